@@ -13,7 +13,7 @@
 (* monitor (spec/mon/MonState) applies Apply to the rounds fed to the real  *)
 (* State and compares every getter.                                         *)
 (*                                                                          *)
-(* A probe record: [st, ttl, rtt, host, seq, sport, dport, kind, tos, eck,  *)
+(* A probe record: [st, ttl, rtt, host, seq, sport, dport, kind, tos, ext, eck,  *)
 (* ack, round]; st \in {"C","A","F","S","N"}; times in integer microseconds.*)
 (* Modelled as coded (pinned by the repository's scenario tests): the       *)
 (* jitter of a hop's first sample is its round-trip time itself, so Javg    *)
@@ -28,7 +28,7 @@ Min2(a, b) == IF a <= b THEN a ELSE b
 Hop0 == [ ttl |-> 0, sent |-> 0, recv |-> 0, failed |-> 0, fl |-> 0, bl |-> 0, total |-> 0,
           last |-> -1, best |-> -1, worst |-> -1, jit |-> -1, jmax |-> -1, jsum |-> 0,
           samples |-> <<>>, addrs |-> <<>>, lsport |-> 0, ldport |-> 0, lseq |-> 0,
-          lkind |-> "none", tos |-> -1, nat |-> "na", sq |-> 0 ]
+          lkind |-> "none", tos |-> -1, ext |-> <<>>, nat |-> "na", sq |-> 0 ]
 
 Flow0 == [ lowest |-> 0, highest |-> 0, highestRound |-> 0, round |-> -1, rc |-> 0, hops |-> <<>> ]
 HopOf(fs, t) == IF t \in DOMAIN fs.hops THEN fs.hops[t] ELSE Hop0
@@ -83,6 +83,7 @@ ApplyProbe(fs, k, pr, probes, maxSamples) ==
                                 !.addrs = AddAddr(@, pr.host),
                                 !.lsport = pr.sport, !.ldport = pr.dport, !.lseq = pr.seq,
                                 !.lkind = pr.kind, !.tos = pr.tos,
+                                !.ext = pr.ext,        \* the extensions of the latest response, none included
                                 !.nat = IF hasNat THEN ns[1] ELSE @,
                                 !.sq = IF @ >= 0 /\ pr.rtt <= 10000 THEN @ + pr.rtt * pr.rtt ELSE -1]
             IN  << [SetHop(fs, pr.ttl, h1) EXCEPT !.lowest = IF @ = 0 THEN pr.ttl ELSE Min2(@, pr.ttl),
@@ -173,7 +174,8 @@ AggHop(rounds, t, maxSamples) ==
           ldport |-> IF Len(occ) = 0 THEN 0 ELSE lastp.dport,
           lseq |-> IF Len(occ) = 0 THEN 0 ELSE lastp.seq,
           lkind |-> IF n = 0 THEN "none" ELSE lastc.kind,
-          tos |-> IF n = 0 THEN -1 ELSE lastc.tos ]
+          tos |-> IF n = 0 THEN -1 ELSE lastc.tos,
+          ext |-> IF n = 0 THEN <<>> ELSE lastc.ext ]
 
 \* window
 AllLive(rounds) == {PrAt(rounds, x).ttl : x \in {y \in UNION {{<<r, i>> : i \in 1..Len(rounds[r].probes)} : r \in 1..Len(rounds)} :
@@ -194,6 +196,7 @@ HopEq(h, a) ==
     /\ {h.addrs[i][1] : i \in 1..Len(h.addrs)} = DOMAIN a.recvByAddr
     /\ \A x \in DOMAIN a.recvByAddr : AddrCount(h.addrs, x) = a.recvByAddr[x]
     /\ h.lsport = a.lsport /\ h.ldport = a.ldport /\ h.lseq = a.lseq /\ h.lkind = a.lkind /\ h.tos = a.tos
+    /\ h.ext = a.ext
 
 \* conservation laws (C05)
 HopLaws(h, maxSamples) ==
